@@ -45,11 +45,10 @@ def anchors(scores, targets, eval_fdr, float32_q=False):
     """(t, d): t = lowest score among targets with q <= eval_fdr (None if there is none), d = decoy median.
     float32_q=True rounds the q-values to float32 first; it is only used to NAME a mismatch that is explained
     by the float32 threshold comparison reported under C01."""
-    q = oracle_q_fast(scores, targets, True)
-    thr = Fraction(float(eval_fdr))
+    q = [float(x) for x in oracle_q_fast(scores, targets, True)]       # nearest doubles of the exact q-values
     if float32_q:
-        q = [Fraction(float(np.float32(float(x)))) for x in q]
-    acc = [float(s) for s, tg, qi in zip(scores, targets, q) if tg and qi <= thr]
+        q = [float(np.float32(x)) for x in q]
+    acc = [float(s) for s, tg, qi in zip(scores, targets, q) if tg and qi <= float(eval_fdr)]
     d = _median([s for s, tg in zip(scores, targets) if not tg])
     return (min(acc) if acc else None), d
 
@@ -137,22 +136,24 @@ def _affine(scores, res):
 # (a) calibrate_scores, module level and on disk
 # ----------------------------------------------------------------------------------------------------------
 def _gen_case(rng, k):
-    n = int(rng.integers(6, 121))
+    n = int(rng.integers(6, 81))
     lab = rng.random(n) < rng.choice([0.3, 0.5, 0.7])
     if lab.all():
         lab[int(rng.integers(n))] = False
     if not lab.any():
         lab[int(rng.integers(n))] = True
     shift = float(rng.choice([0.0, 1.0, 2.5, 4.0]))
-    scores = rng.normal(0, 1, n) * float(rng.choice([1, 10, 0.01])) + 0.0
+    scale = float(rng.choice([1, 10, 0.01]))
+    scores = rng.normal(0, 1, n) * scale
     scores = scores + shift * lab * (np.abs(scores).max() / 3 + 1e-12) * (rng.random(n) < 0.7)
     mode = k % 4
     if mode == 1:
-        scores = np.round(scores * 4) / 4                   # ties
+        scores = np.round(scores / scale * 4) / 4 * scale   # ties
     elif mode == 2:
-        scores = np.round(scores)                           # heavy ties
+        scores = np.round(scores / scale) * scale           # heavy ties
     elif mode == 3:
-        scores = scores - 50.0                              # all negative: sign conventions
+        scores = scores - 50.0 * scale                      # all negative: sign conventions
+    scores = np.round(scores, 5 if scale < 1 else 3) + 0.0  # short decimal representations (replay records)
     fdr = float(FDRS[k % len(FDRS)]) if k % 3 else float(np.round(rng.uniform(0.02, 0.6), 3))
     return scores.astype(float), lab, fdr
 
@@ -186,12 +187,12 @@ def _inp(scores, lab, fdr, where):
 
 
 def check_calibrate(tier, seed):
-    n_mod, n_disk = (600, 80) if tier == "quick" else (12000, 800)
+    n_mod, n_disk = (1000, 100) if tier == "quick" else (15000, 1000)
     ck = Check(
         "calibrate", "mokapot.dataset.calibrate_scores, mokapot.dataset.OnDiskPsmDataset.calibrate_scores",
         "random: %d score vectors for the module-level function and %d for the on-disk method (tiny Parquet/TSV "
-        "datasets), seed %d, 6..120 PSMs, at least one target and one decoy, continuous / quarter-rounded / integer / "
-        "all-negative scores, eval_fdr in %s or uniform(0.02, 0.6), desc=True (the only mode brew uses)"
+        "datasets), seed %d, 6..80 PSMs (on disk: at most 40), at least one target and one decoy, continuous / quarter-rounded / integer / "
+        "all-negative scores on scales 0.01, 1, 10, eval_fdr in %s or uniform(0.02, 0.6), desc=True (the only mode brew uses)"
         % (n_mod, n_disk, seed, list(FDRS)),
         "expected: RuntimeError iff no target has exact rational q <= eval_fdr; else (s - t)/(t - d), 0 at t, -1 at "
         "d, strictly increasing, checked when t > d (property domain); non-trivial = an accepted target exists, "
@@ -216,7 +217,7 @@ def check_calibrate(tier, seed):
             elif in_dom:
                 stats["domain"] += 1
                 q = oracle_q_fast(scores, lab, True)
-                nontriv = any(tg and qi > Fraction(fdr) for tg, qi in zip(lab, q))
+                nontriv = any(tg and float(qi) > fdr for tg, qi in zip(lab, q))
             else:
                 stats["outside"] += 1
                 nontriv = False
@@ -284,7 +285,8 @@ def _brew_case(cfg, d):
     model = _rec_model_class()(FoldEstimator(cfg["gain"]), scaler="as-is", train_fdr=0.2, max_iter=cfg["max_iter"],
                                override=True, rng=cfg["data_seed"])
     old = brew_mod.CHUNK_SIZE_ROWS_PREDICTION
-    brew_mod.CHUNK_SIZE_ROWS_PREDICTION = cfg["chunk"] or old
+    if cfg["chunk"]:                                         # the table is scored in 2 or 3 row chunks
+        brew_mod.CHUNK_SIZE_ROWS_PREDICTION = -(-len(df) // cfg["chunk"])
     try:
         _, models, scores, descs = brew_mod.brew(ds, model, test_fdr=cfg["test_fdr"], folds=cfg["folds"],
                                                  rng=cfg["rng"])
@@ -306,6 +308,8 @@ def _judge_brew(cfg, df, outcome, folds):
     """Returns list of (class id, what) and the number of folds that were in the property's domain."""
     kind, val = outcome
     out = []
+    if kind == "exception:ValueError" and "No PSMs were detected" in val:
+        return [("empty-fold-slice-in-chunk(C05)", "a prediction chunk without rows of some fold makes brew fail")], 0
     if kind.startswith("exception"):
         return [(kind, "brew raised: %s" % val)], 0
     if kind == "RuntimeError" and not folds:
@@ -341,7 +345,7 @@ def _judge_brew(cfg, df, outcome, folds):
 
 def _brew_configs(tier, seed):
     rng = np.random.default_rng(seed + 11)
-    n = 30 if tier == "quick" else 300
+    n = 100 if tier == "quick" else 600
     cfgs = []
     for k in range(n):
         folds = 2 + k % 3 if tier == "quick" else 2 + k % 5
@@ -350,7 +354,7 @@ def _brew_configs(tier, seed):
             fdr = 0.001                                       # nobody can be accepted: the explicit-error path
         cfgs.append({"k": k, "n_spec": int(rng.integers(100, 181)), "data_seed": int(rng.integers(1 << 30)),
                      "rng": int(rng.integers(1 << 30)), "folds": folds, "test_fdr": fdr,
-                     "fmt": "parquet" if k % 2 else "tsv", "chunk": [None, 97, 53][k % 3],
+                     "fmt": "parquet" if k % 2 else "tsv", "chunk": [None, 2, 3][k % 3],
                      "max_iter": 1 + (k % 4 == 3), "gain": [1.0, 0.01, 30.0][k % 3], "round": k % 7 == 6})
     return cfgs
 
@@ -360,7 +364,7 @@ def check_per_fold(tier, seed):
     ck = Check(
         "per_fold", "mokapot.brew.brew (brew._predict -> dataset.calibrate_scores per fold)",
         "random: %d brew runs (seed %d) on on-disk datasets of 200..360 PSMs (Parquet/TSV), folds 2..%d, test_fdr in "
-        "{0.2, 0.1, 0.25, 0.15, uniform(0.08,0.3), 0.001 (error path)}, prediction chunk size default/97/53 rows, "
+        "{0.2, 0.1, 0.25, 0.15, uniform(0.08,0.3), 0.001 (error path)}, predictions made in 1, 2 or 3 row chunks, "
         "1-2 training iterations, a deterministic linear decision_function estimator whose scale differs per fold "
         "(x1..7, gain 0.01/1/30)" % (len(cfgs), seed, 4 if tier == "quick" else 6),
         "fold membership and raw output are recorded in Model.predict of each fold model; per fold the returned "
@@ -418,7 +422,8 @@ if __name__ == "__main__":
     a = args()
     np.random.seed(a.seed)
     emit([check_calibrate(a.tier, a.seed), check_per_fold(a.tier, a.seed)],
-         ["accepted targets are decided by the exact rational q-values of the C01 oracle (q <= eval_fdr); a mismatch "
+         ["accepted targets are decided by the exact rational q-values of the C01 oracle, rounded to the nearest double "
+          "(q <= eval_fdr); a mismatch "
           "explained by tdc's float32 rounding at the threshold gets a case id ending in '(C01)'",
           "the ordering and anchor claims are checked only where the lowest accepted target lies above the decoy "
           "median (t > d), the property's stated domain; for t <= d only the RuntimeError-iff clause is checked",
